@@ -21,7 +21,7 @@ func init() {
 				Doc: "A pooled reader never carries a previous body: Reset(this request's Body) before use; fresh zlib reader per call."},
 			{ID: "C16.c", Template: "T-SINK", Required: true, Run: ruleC16c,
 				Doc: "Broken input is an error, not a panic: zlib.NewReader returns a nil reader together with its error, so any use before the check - including `defer r.Close()` - dereferences nil when the 2-byte header is malformed."},
-			{ID: "C16.d", Template: "T-TYPESTATE", Required: true, Run: ruleC13a,
+			{ID: "C16.d", Template: "T-TYPESTATE", Required: true, Run: ruleC13aReaders,
 				Doc: "The pooled reader is released exactly once and not before the entity was read (C13.a): a reader released by a helper is handed to the next request while this one still decodes from it."},
 		},
 	})
